@@ -13,6 +13,11 @@ class Contract(object):
                              # stand-in only (native enumeration over a stated family).  The symbolic engine never
                              # evaluates them, callers that use this contract as a stub never assume them, and they are
                              # reported separately from the discharged obligations.  Yield them as (name, lambda: formula).
+    def bounded_obligations(self, case):
+        """names (post-clause names, or prefixes of engine-generated names such as "raises[IndexError]") of the obligations
+        of `case` that are decided by the bounded stand-in only.  Default: bounded_clauses."""
+        return tuple(self.bounded_clauses)
+
     chain_post = False       # True: a post clause discharged on a path is available as a fact to the LATER clauses of
                              # that path (lemma first, corollaries after).  Sound: it is only added once proved, under
                              # the same assumptions.  Never applies to canaries or to clauses that were not discharged.
@@ -40,6 +45,17 @@ class Contract(object):
 
     def canaries(self, S, case, env, result):
         return ()
+
+    region_behaviour = {}    # {tag: ExceptionType}: what the real function does inside a known region (what the recorded
+                             # finding observed).  A caller verified against this contract sees exactly that behaviour there:
+                             # the contract's own clauses are not proved inside the region and must not be relied on.
+
+    def known_regions(self, S, case, env):
+        """{tag: condition over the inputs} -- input regions in which a recorded, open finding lives.  A failed
+        obligation is renamed `<name>@<tag>` only when the failing path's own facts IMPLY the condition (natively:
+        when the failing input satisfies it).  known_findings.json matches tagged names only, so a failure of the same
+        clause anywhere outside the region is still an ordinary VIOLATION."""
+        return {}
 
     # ---- modular use: the contract replaces the body at call sites of verified callers ----
     def requires(self, S, case, env):
